@@ -14,4 +14,4 @@ CONSTANTS
 CHECK_DEADLOCK FALSE
 ALIAS Alias
 INVARIANTS TypeOK WaitListSound WaitListComplete
- PrC01_RunLimit PrC10_AllTerminal PrC10_NoGhosts PrC10_SameSet PrC10_FinishedFaithful PrC11_PersistWithinInterval PrC15_SchedulableIffAccepted PrC15_ListedFromReturn
+ PrC01_RunLimit PrC10_AllTerminal PrC10_NoGhosts PrC10_SameSet PrC10_FinishedFaithful PrC10_NoGhostCapacity PrC11_PersistWithinInterval PrC15_SchedulableIffAccepted PrC15_ListedFromReturn
